@@ -145,7 +145,8 @@ def s_regressor(draw, recording=False):
         return dict(cls=k, params=dict(strategy=draw(st.sampled_from(["mean", "median"]))))
     if k == "Ridge":
         return dict(cls=k, params=dict(alpha=draw(st.sampled_from([0.5, 1.0, 2.0]))))
-    return dict(cls=k, params=dict(tag=draw(st.integers(0, 3))))
+    # yield points inside fit / predict perturb the joblib thread schedules of the meta-estimators that run their inner fits in threads
+    return dict(cls=k, params=dict(tag=draw(st.integers(0, 3)), yield_fit=draw(st.sampled_from([0, 0, 1, 2])), yield_predict=draw(st.sampled_from([0, 0, 1]))))
 
 
 def s_classifier(draw, recording=False, linear_only=False, warm=False):
@@ -163,7 +164,7 @@ def s_classifier(draw, recording=False, linear_only=False, warm=False):
         return dict(cls=k, params=dict(max_depth=draw(st.integers(1, 3)), random_state=0))
     if k == "GaussianNB":
         return dict(cls=k, params=dict(var_smoothing=draw(st.sampled_from([1e-9, 1e-3]))))
-    return dict(cls=k, params=dict(tag=draw(st.integers(0, 3))))
+    return dict(cls=k, params=dict(tag=draw(st.integers(0, 3)), yield_fit=draw(st.sampled_from([0, 0, 1, 2])), yield_predict=draw(st.sampled_from([0, 0, 1]))))
 
 
 def s_transformer(draw):
@@ -484,8 +485,12 @@ class _IR(Entry):
     methods = ("predict", "predict_all", "predict_sorted")
 
     def spec(self, draw):
-        return dict(cls=self.name, params=dict(estimator=s_regressor(draw, recording=True), n_estimators=draw(st.integers(1, 5)),
-                                               alpha=draw(st.sampled_from([0.75, 1.0, 1.5])), n_jobs=draw(st.sampled_from([None, 1, 2]))))
+        # half of the configurations train in two threads, with a recording base whose fits pause for varying times
+        est = s_regressor(draw, recording=True)
+        if draw(st.booleans()):
+            est = dict(cls="RecordingRegressor", params=dict(tag=draw(st.integers(0, 3)), yield_fit=draw(st.sampled_from([1, 2, 3])), yield_predict=0))
+        return dict(cls=self.name, params=dict(estimator=est, n_estimators=draw(st.integers(1, 5)),
+                                               alpha=draw(st.sampled_from([0.75, 1.0, 1.5])), n_jobs=draw(st.sampled_from([None, 1, 2, 2]))))
 
 
 @register
